@@ -228,6 +228,12 @@ func vfC04WScenario(t *testing.T, plan vfC04WPlan, tr *vfh.Trace, out *vfC04WOut
 				wg.Add(1)
 				go func() { defer wg.Done(); closeLn("race") }()
 			}})
+		case "lclose-sync": // the operation resumes only after the listener's Close has gone as far as it can
+			e.SetFault(&vfc04.Fault{Kind: "trig", K: plan.K, Trig: func() {
+				wg.Add(1)
+				go func() { defer wg.Done(); closeLn("race") }()
+				synctest.Wait()
+			}})
 		}
 	}
 	armConnClose := func(side string, c transport.CapableConn) {
@@ -439,7 +445,7 @@ wait:
 	synctest.Wait()
 	out.Leaked = vfc04.Census()
 	switch plan.Kind {
-	case "none", "err", "eof", "stall", "cancel", "lclose", "cclose":
+	case "none", "err", "eof", "stall", "cancel", "lclose", "lclose-sync", "cclose":
 	case "no-accept", "rm-open-l", "rm-setpeer-l", "gater-secured-l":
 		out.Hit = !acc
 	default:
@@ -610,8 +616,11 @@ func vfC04WLoopback(t *testing.T, plan vfC04WPlan, tr *vfh.Trace, out *vfC04WOut
 				}
 				acceptedMu.Lock()
 				acceptedConns = append(acceptedConns, c)
+				first := len(acceptedConns) == 1
 				acceptedMu.Unlock()
-				led.Live("wl")
+				if first {
+					led.Live("wl")
+				}
 			}
 		}()
 		stop = append(stop, func() {
@@ -669,8 +678,11 @@ func vfC04WLoopback(t *testing.T, plan vfC04WPlan, tr *vfh.Trace, out *vfC04WOut
 			tr.Emit("note", "what", "server-saw", "s", "nothing")
 		}
 	}
+	// stop the servers first: after the listener's Close has returned nothing can be accepted any more
+	for i := len(stop) - 1; i >= 0; i-- {
+		stop[i]()
+	}
 	if real {
-		vfC04Settle(func() bool { u := vfc04.ReadUsage(rmL); return err == nil || u.Sys[2] == 0 })
 		acceptedMu.Lock()
 		for _, ac := range acceptedConns {
 			ac.Close()
@@ -679,17 +691,11 @@ func vfC04WLoopback(t *testing.T, plan vfC04WPlan, tr *vfh.Trace, out *vfC04WOut
 		acceptedMu.Unlock()
 		if n > 0 {
 			led.End("wl", "closed", "up")
-		}
-	}
-	for i := len(stop) - 1; i >= 0; i-- {
-		stop[i]()
-	}
-	if real {
-		acceptedMu.Lock()
-		n := len(acceptedConns)
-		acceptedMu.Unlock()
-		if n == 0 {
+		} else {
 			led.End("wl", "listener-closed", "")
+		}
+		if n > 1 {
+			tr.Emit("bad_accept", "addr", fmt.Sprintf("%d connections accepted for one dial", n))
 		}
 		vfC04Settle(func() bool { u := vfc04.ReadUsage(rmL); return u.Sys[2] == 0 && u.Sys[4] == 0 })
 	}
@@ -805,6 +811,7 @@ func TestVerifC04Websocket(t *testing.T) {
 				run(vfC04WPlan{Kind: "cancel", Side: side, K: k})
 			} else {
 				run(vfC04WPlan{Kind: "lclose", Side: side, K: k})
+				run(vfC04WPlan{Kind: "lclose-sync", Side: side, K: k})
 			}
 		}
 		for k := 1; k <= 6; k++ {
